@@ -165,6 +165,7 @@ func IteU64(c bool, a, b uint64) uint64 {
 }
 func BytesEq(a, b []byte) bool { return string(a) == string(b) }
 func Symbolic() bool           { return false }
+func IsConst(x uint64) bool    { return true }
 func Yield() {
 	for i := 0; i < 50; i++ {
 		runtime.Gosched()
